@@ -123,6 +123,10 @@ class Deduping(DNAGenerator):
       attempts += 1
     if attempts == self.max_proposal_attempts:
       raise StopIteration()
+    if attempts:
+      # Remember how many inner proposals were dropped so `recover` can
+      # advance the inner generator by the same amount.
+      dna.set_metadata('dedup_skipped', attempts)
     if not self.needs_feedback:
       self._add_dna_to_cache(dna, None)
     return dna
@@ -134,7 +138,11 @@ class Deduping(DNAGenerator):
   def recover(self, history) -> None:
     """Recovers the inner generator through its own `recover`, then the cache."""
     history = list(history)
-    self.generator.recover(history)
+    inner_history = []
+    for dna, reward in history:
+      skipped = dna.metadata.get('dedup_skipped', 0)
+      inner_history.extend([(dna, None)] * skipped + [(dna, reward)])
+    self.generator.recover(inner_history)
     super().recover(history)
 
   def _replay(self, trial_id: int, dna: DNA, reward: Any) -> None:
